@@ -90,13 +90,13 @@ type Config struct {
 }
 
 type Case struct {
-	Viz    bool   `json:"viz"` // record the DOT text after every operation
+	Viz bool `json:"viz"` // record the DOT text after every operation
 	// raw operations: reuse ONE ProvideInfo / DecorateInfo / InvokeInfo for all calls of the case
-	ShareInfo bool `json:"share_info"`
-	ID     string `json:"id"`
-	Config Config `json:"config"`
-	Fns    []Fn   `json:"fns"`
-	Ops    []Op   `json:"ops"`
+	ShareInfo bool   `json:"share_info"`
+	ID        string `json:"id"`
+	Config    Config `json:"config"`
+	Fns       []Fn   `json:"fns"`
+	Ops       []Op   `json:"ops"`
 }
 
 // ---------- trace format ----------
@@ -184,13 +184,25 @@ var (
 	errType = reflect.TypeOf((*error)(nil)).Elem()
 )
 
+// The strings behind the name / group codes are chosen adversarially: codes 1
+// and 2 differ only by a trailing blank (keys must not be normalised), name 3
+// needs escaping in HTML-like DOT labels.  tools/dotparse.py and
+// tools/emitraw.py hold the inverse tables.
 func nameStr(n int) string {
-	if n == 3 {
-		return "n<3>&" // a legal name that needs escaping in HTML-like DOT labels
+	switch n {
+	case 2:
+		return "n1 "
+	case 3:
+		return "n<3>&"
 	}
 	return fmt.Sprintf("n%d", n)
 }
-func groupStr(g int) string { return fmt.Sprintf("g%d", g) }
+func groupStr(g int) string {
+	if g == 2 {
+		return "g1 "
+	}
+	return fmt.Sprintf("g%d", g)
+}
 
 // groupSliceType: []T<ty>, or the declared named slice type NS<ty> over the same element
 func groupSliceType(ty int, ns int) reflect.Type {
